@@ -259,4 +259,17 @@ def envpDecodeAux : Nat → Bytes → Option (List (Bytes × Bytes))
 
 def envpDecode (s : Bytes) : Option (List (Bytes × Bytes)) := envpDecodeAux (s.length + 1) s
 
+/-! ### mod_cgi: request body on the script's standard input -/
+
+structure StdinSt where
+  out : Bytes := []        -- bytes the script can read from its stdin
+  eof : Bool := false      -- the script sees end of input
+deriving Repr, DecidableEq
+
+/-- cgi_write_request() / the single-temp-file hand-over of cgi_create_env(): the body bytes
+    received so far, in order; the input is closed exactly when reqbody_length bytes were passed -/
+def cgiStdin (bodyLen : Int) (segs : List Bytes) : StdinSt :=
+  let out := segs.flatten
+  { out := out, eof := (out.length : Int) = bodyLen }
+
 end LtVerif
